@@ -382,6 +382,14 @@ func c08Run(u *vfUnit) {
 			c08TrimExt(&p.Names[i].Attrs)
 		}
 		c08TrimExt(&p.Attrs)
+		if round == 2 && strings.Contains("OPEN SETSTAT FSETSTAT MKDIR ATTRS", kind) {
+			// a valid block with many extended attributes (nothing limits their number but the frame)
+			p.Attrs.Flags |= rfAttrExt
+			p.Attrs.Ext = nil
+			for i := 0; i < 20; i++ {
+				p.Attrs.Ext = append(p.Attrs.Ext, [2]string{fmt.Sprintf("k%d", i), "v"})
+			}
+		}
 		for i := range p.Exts {
 			if len(p.Exts[i][0]) > 12 {
 				p.Exts[i][0] = p.Exts[i][0][:12]
